@@ -85,15 +85,23 @@ def _eventlet_serve(sock, handle, concurrency):
             gt.link(_eventlet_stop, server_gt, conn)
             conn, addr, gt = None, None, None
         except eventlet.StopServe:
-            sock.close()
-            pool.waitall()
-            return
+            break
         except OSError as e:
             # a connection reset while it waited in the accept queue must
             # not end the acceptor (the other workers ignore these too)
             if e.errno not in (errno.EAGAIN, errno.ECONNABORTED,
                                errno.EWOULDBLOCK):
                 raise
+
+    sock.close()
+    while True:
+        try:
+            pool.waitall()
+            return
+        except eventlet.StopServe:
+            # asked twice: by the handler that reached max_requests and
+            # by run()
+            pass
 
 
 def _eventlet_stop(client, server, conn):
@@ -162,8 +170,16 @@ class EventletWorker(AsyncWorker):
             client = ssl_wrap_socket(client, self.cfg)
         super().handle(listener, client, addr)
 
+    def stop_accepting(self):
+        for a in self.acceptors:
+            a.kill(eventlet.StopServe())
+        # and let run() retire the worker now rather than a heartbeat later
+        if not self._wake.ready():
+            self._wake.send()
+
     def run(self):
-        acceptors = []
+        acceptors = self.acceptors = []
+        wake = self._wake = eventlet.event.Event()
         for sock in self.sockets:
             gsock = GreenSocket(sock)
             gsock.setblocking(1)
@@ -179,7 +195,7 @@ class EventletWorker(AsyncWorker):
 
         while self.alive:
             self.notify()
-            eventlet.sleep(wait)
+            wake.wait(wait)
 
         def heartbeat():
             # the arbiter has to see us alive while the requests in
@@ -195,7 +211,12 @@ class EventletWorker(AsyncWorker):
                 for a in acceptors:
                     a.kill(eventlet.StopServe())
                 for a in acceptors:
-                    a.wait()
+                    try:
+                        a.wait()
+                    except eventlet.StopServe:
+                        # stopped before it ever ran (the limit was reached
+                        # while the acceptors were still being started)
+                        pass
         except eventlet.Timeout as te:
             if te != t:
                 raise
